@@ -110,7 +110,7 @@ DevEvents(T)  == { e \in T : Dev(e) }
 
 \* profiler-step annotations are named "ProfilerStep#<n>"; generated traces use n < 128
 StepNameOf(n) == "ProfilerStep#" \o ToString(n)
-StepNumbers == 0..127
+StepNumbers == (0..127) \cup (32766..32770) \cup (65534..65538)      \* small numbers and numbers around the 16-bit edges (a long run)
 AllStepNames == { StepNameOf(n) : n \in StepNumbers }
 IsStepName(name) == name \in AllStepNames
 \* the loader trims device activities only when the file has at least two distinct profiler steps; otherwise every complete entry of
